@@ -241,8 +241,84 @@ pub fn check(r: &mut Report, s: &Scn) {
             }
         }
     }
+    if !s.unified && s.segs.iter().all(|g| g.from_a == s.segs[0].from_a) {
+        tracker_route(r, s, &exp);
+    }
     r.outcome(&sig);
     r.sample(|| json!({"scenario": s, "reports": got.iter().map(|g| (g.client_uptime.as_ref().map(|u| u.freq), g.server_uptime.as_ref().map(|u| u.freq))).collect::<Vec<_>>()}));
+}
+
+/// The same pair of timestamps through the crate's other public entry point, `calculate_uptime_improved` with an
+/// `UptimeTracker`: the first call stores the reference, the second is judged by the same rule (same bounds, same grid,
+/// same decomposition); after a rejected pair the tracker stays silent, after an accepted one it keeps its frequency.
+fn tracker_route(r: &mut Report, s: &Scn, exp_unused: &[Expect]) {
+    use huginn_net_tcp::{calculate_uptime_improved, UptimeTracker};
+    if s.segs.len() < 2 {
+        return;
+    }
+    // a tracker has no roles: the expectation is the rule applied to one endpoint in one role
+    let one_role = Scn { pa: 40000, pb: 80, segs: s.segs.iter().map(|g| Seg { from_a: true, flags: ACK | PSH, ..g.clone() }).collect(), ..s.clone() };
+    let exp = &reference(&one_role)[..];
+    let _ = exp_unused;
+    let got = guarded(|| {
+        let mut t = UptimeTracker::new();
+        s.segs
+            .iter()
+            .enumerate()
+            .map(|(i, g)| {
+                set_clock(g.at_ms);
+                calculate_uptime_improved(&mut t, g.tsval, i == 0).map(|u| Upt { role: String::new(), src: String::new(), dst: String::new(), days: u.days, hours: u.hours, min: u.min, up_mod_days: u.up_mod_days, freq: u.freq })
+            })
+            .collect::<Vec<_>>()
+    });
+    r.exec(s.segs.len() as u64);
+    let got = match got {
+        Ok(g) => g,
+        Err(p) => {
+            r.dev("C19/tracker/panic", "panic", || json!({"scenario": s, "route": "tracker", "detail": p}));
+            return;
+        }
+    };
+    let mut dev = |class: &str, i: usize, detail: String| {
+        r.dev(format!("C19/tracker/{class}"), class, || json!({"scenario": s, "route": "tracker", "packet": i, "detail": detail, "actual": format!("{:?}", got.iter().map(|u| u.as_ref().map(|u| (u.freq, u.days, u.hours, u.min, u.up_mod_days))).collect::<Vec<_>>())}));
+    };
+    if got[0].is_some() {
+        dev("reported-on-first-segment", 0, "the first timestamp of a tracker yields an estimate".into());
+    }
+    match &exp[1] {
+        Expect::Open => {}
+        Expect::Nothing => {
+            // nothing now, and nothing later either: the tracker is not re-evaluated
+            for (i, u) in got.iter().enumerate().skip(1) {
+                if u.is_some() {
+                    dev("reported-outside-bounds", i, "an estimate was reported where the rule withholds it".into());
+                    break;
+                }
+            }
+        }
+        Expect::Report { raws, tsval, .. } => match &got[1] {
+            None => dev("withheld-inside-bounds", 1, format!("raw {raws:?} Hz")),
+            Some(u) => {
+                let f = u.freq;
+                if !raws.iter().any(|&raw| f == grid_a(raw) || f == grid_b(raw)) {
+                    dev("frequency-off-grid", 1, format!("raw {} Hz reported as {f} Hz", raws[0]));
+                }
+                for (i, (u, ts)) in got.iter().zip(s.segs.iter().map(|g| g.tsval)).enumerate().skip(1) {
+                    let Some(u) = u else {
+                        dev("withheld-after-valid-frequency", i, "a tracker with a valid frequency reports nothing".into());
+                        continue;
+                    };
+                    let _ = tsval;
+                    let secs = ts as f64 / f;
+                    let (d, h, m) = ((secs / 86400.0) as u32, ((secs % 86400.0) / 3600.0) as u32, ((secs % 3600.0) / 60.0) as u32);
+                    let (w1, w2) = ((4294967296.0 / (f * 86400.0)) as u32, (4294967295.0 / (f * 86400.0)) as u32);
+                    if u.freq != f || (u.days, u.hours, u.min) != (d, h, m) || (u.up_mod_days != w1 && u.up_mod_days != w2) {
+                        dev("uptime-decomposition", i, format!("tsval {ts} at {f} Hz: expected {d}d {h}h {m}m wrap {w1}, got {} Hz {}d {}h {}m wrap {}", u.freq, u.days, u.hours, u.min, u.up_mod_days));
+                    }
+                }
+            }
+        },
+    }
 }
 
 pub fn scenarios(thorough: bool) -> Vec<Scn> {
@@ -361,7 +437,7 @@ pub fn run(thorough: bool) -> Outcome {
     });
     Outcome {
         report,
-        rule: "histories of 2-4 timestamped segments under the injected clock: every integer rate 1..1500 Hz x intervals x 4 role routes x timestamp origin (incl. wrap through 2^32) x IPv4/IPv6; interval/rate boundaries with follow-up segments; port heuristic over {80,1024,1025,50000}^2; both directions interleaved; backward movement; distinct = distinct per-packet (client,server) frequency report vectors".into(),
+        rule: "histories of 2-4 timestamped segments under the injected clock: every integer rate 1..1500 Hz x intervals x 4 role routes x timestamp origin (incl. wrap through 2^32) x IPv4/IPv6; interval/rate boundaries with follow-up segments; port heuristic over {80,1024,1025,50000}^2; both directions interleaved; backward movement; every single-endpoint history also through calculate_uptime_improved + UptimeTracker (same bounds, grid and decomposition; silent after a rejected pair, frequency kept after an accepted one); distinct = distinct per-packet (client,server) frequency report vectors".into(),
         exhaustive: true,
         bounds: json!({"scenarios": sc.len(), "max_segments": 4}),
     }
